@@ -38,6 +38,7 @@ func runC04(r *an.Run) {
 	c04SectionBookkeeping(r)
 	c04AnchoringAndConsumption(r)
 	c04Reproduction(r)
+	listBuiltIsNewMemory(r, "R6-reproduction")
 	c04AssociationReported(r)
 	c04ForDots(r)
 	c04ImplicitDots(r)
